@@ -80,6 +80,16 @@ def gen_texts(rng, tier):
                            ([('m', b_)], g_), ([('m1', None), ('m2', b_)], g_), ([('m1', g_), ('m2', None), ('m3', b_)], None)):
             text = 'ASAP2_VERSION 1 71 /begin PROJECT p "" ' + ' '.join(module(n, a) for n, a in mods) + ' /end PROJECT'
             texts.append(('a2ml-broken' if spec is None else ('a2ml-broken', spec), text))
+    # many deprecation notices in front of one recoverable fault (a log that is cut, de-duplicated or capped must not lose the
+    # problem): N MEASUREMENTs with the deprecated BYTE_ORDER BIG_ENDIAN, then one MEASUREMENT with a fault
+    faults = ['/begin MEASUREMENT bad "" UBYTE NO_COMPU_METHOD 0 0 0 255 /end CHARACTERISTIC',
+              '/begin MEASUREMENT bad nostring UBYTE NO_COMPU_METHOD 0 0 0 255 /end MEASUREMENT',
+              '/begin MEASUREMENT bad "" UBYTE NO_COMPU_METHOD 0 0 0 255 FUTURE_KEYWORD 1 /end MEASUREMENT',
+              '/begin MEASUREMENT ok_last "" UBYTE NO_COMPU_METHOD 0 0 0 255 /end MEASUREMENT']
+    for count in ((0, 3, 1100) if tier == 'quick' else (0, 1, 17, 255, 256, 999, 1000, 1001, 1100, 5000)):
+        body = '\n'.join('/begin MEASUREMENT m%d "" UBYTE NO_COMPU_METHOD 0 0 0 255 BYTE_ORDER BIG_ENDIAN /end MEASUREMENT' % k for k in range(count))
+        for fault in faults:
+            texts.append(('many-notices', 'ASAP2_VERSION 1 71\n/begin PROJECT p ""\n/begin MODULE m ""\n' + body + '\n' + fault + '\n/end MODULE\n/end PROJECT\n'))
     # token-level mutations of valid documents
     m = 80 if tier == 'quick' else 15000
     for i in range(m):
